@@ -102,64 +102,57 @@ func (pc *PubkeyCache) unsafeValidatorIndex(pubkey BLSPubkey) (index ValidatorIn
 // AddValidator appends the (index, pubkey) pair to the pubkey cache. It returns the same cache if the added entry is not conflicting.
 // If it conflicts, the part is inherited, and a forked pubkey cache is returned.
 func (pc *PubkeyCache) AddValidator(index ValidatorIndex, pub BLSPubkey) (*PubkeyCache, error) {
-	existingIndex, indexExists := pc.ValidatorIndex(pub)
-	existingPubkey, pubkeyExists := pc.Pubkey(index)
+	// The look-ups and the append must be one atomic step: two concurrent additions of the same index must
+	// not both find the index free.
+	pc.rwLock.Lock()
+	trusted, conflict, err := pc.unsafeAddValidator(index, pub)
+	pc.rwLock.Unlock()
+	if err != nil {
+		return nil, err
+	}
+	if !conflict {
+		return pc, nil
+	}
+	// conflict detected! Deposit log fork!
+	forkedPc := &PubkeyCache{
+		parent: pc,
+		// fork out the existing index, only trust the history before the conflicting entries
+		trustedParentCount: trusted,
+		pub2idx:            make(map[BLSPubkey]ValidatorIndex),
+		idx2pub:            make([]*CachedPubkey, 0),
+	}
+	// This cache (parent of forkedPc) is unlocked already, the forkedPc reads from it.
+	return forkedPc.AddValidator(index, pub)
+}
+
+// unsafeAddValidator appends the pair if it is the next entry, does nothing if the pair is known,
+// or reports a conflict and the number of entries of this cache that a fork for the new pair can trust.
+func (pc *PubkeyCache) unsafeAddValidator(index ValidatorIndex, pub BLSPubkey) (trusted ValidatorIndex, conflict bool, err error) {
+	existingIndex, indexExists := pc.unsafeValidatorIndex(pub)
+	existingPubkey, pubkeyExists := pc.unsafePubkey(index)
 
 	if indexExists {
 		if existingIndex != index {
-			// conflict detected! Deposit log fork!
-			trusted := existingIndex
+			trusted = existingIndex
 			if index < trusted {
 				trusted = index
 			}
-			forkedPc := &PubkeyCache{
-				parent: pc,
-				// fork out the existing index, only trust the history before both conflicting entries
-				trustedParentCount: trusted,
-				pub2idx:            make(map[BLSPubkey]ValidatorIndex),
-				idx2pub:            make([]*CachedPubkey, 0),
-			}
-			// Do not have to unlock this cache (parent of forkedPc) early, as the forkedPc is guaranteed to handle it.
-			return forkedPc.AddValidator(index, pub)
+			return trusted, true, nil
 		}
-		if pubkeyExists {
-			if existingPubkey.Compressed != pub {
-				// conflict detected! Deposit log fork!
-				forkedPc := &PubkeyCache{
-					parent: pc,
-					// fork out the existing index, only trust the history
-					trustedParentCount: index,
-					pub2idx:            make(map[BLSPubkey]ValidatorIndex),
-					idx2pub:            make([]*CachedPubkey, 0),
-				}
-				// Do not have to unlock this cache (parent of forkedPc) early, as the forkedPc is guaranteed to handle it.
-				return forkedPc.AddValidator(index, pub)
-			}
+		if pubkeyExists && existingPubkey.Compressed != pub {
+			return index, true, nil
 		}
 		// append is no-op, validator already exists
-		return pc, nil
+		return 0, false, nil
 	}
-	if pubkeyExists {
-		if existingPubkey.Compressed != pub {
-			// conflict detected! Deposit log fork!
-			forkedPc := &PubkeyCache{
-				parent: pc,
-				// fork out the existing index, only trust the history
-				trustedParentCount: index,
-				pub2idx:            make(map[BLSPubkey]ValidatorIndex),
-				idx2pub:            make([]*CachedPubkey, 0),
-			}
-			// Do not have to unlock this cache (parent of forkedPc) early, as the forkedPc is guaranteed to handle it.
-			return forkedPc.AddValidator(index, pub)
-		}
+	if pubkeyExists && existingPubkey.Compressed != pub {
+		return index, true, nil
 	}
-	pc.rwLock.Lock()
-	defer pc.rwLock.Unlock()
 	if expected := pc.trustedParentCount + ValidatorIndex(len(pc.idx2pub)); index != expected {
 		// index is unknown, but too far ahead of cache; in between indices are missing.
-		return nil, fmt.Errorf("AddValidator is incorrect, missing earlier index. got: (%d, %x), but currently expecting %d next", index, pub, expected)
+		return 0, false, fmt.Errorf("AddValidator is incorrect, missing earlier index. got: (%d, %x), but currently expecting %d next", index, pub, expected)
 	}
 	pc.idx2pub = append(pc.idx2pub, &CachedPubkey{Compressed: pub})
 	pc.pub2idx[pub] = index
-	return pc, nil
+	return 0, false, nil
 }
